@@ -57,3 +57,8 @@ def fill(add):
         "2-3 real library processes (and, for curated pairs, threads of one process) are stopped at every file-system system call; all schedules up to the preemption bound (2 quick, 3 thorough for pairs, triples at 1-2, one unbounded writer pair) are executed; replies and final state must equal the model's result for some sequential order, and for serial schedules the order that ran.",
         "Trusted: one file-system system call as the atomic step (the property's granularity); dictionary model. Schedules beyond the preemption bound are not covered.",
         "DESIGN.md 4/C07", "fsx")
+    add("C13", "fault_enumeration",
+        "exhaustive single (thorough: pairwise) fault injection at the system-call boundary of the real process (ptrace: syscall suppressed, -errno returned; short write then failure)",
+        "17 operations x 3 flavours on a warm cache: every file-system system call of the operation fails with every applicable errno, every write is answered short and then failed; each execution is judged: returns a value, Ok is truthful, bystanders intact, content area valid, operated key old or new, retry without faults succeeds and reaches the expected state.",
+        "Trusted: the errno applicability table (DESIGN 3.4); ptrace injection replaces the kernel's answer only (no kernel-side partial effects other than the modelled short write).",
+        "DESIGN.md 4/C13", "fsx")
